@@ -119,7 +119,8 @@ def run(case):
         target = t
     kw = {"algorithm": case["algo"], "return_footprint": case["footprint"]}
     if case["shape_out"] in ("explicit", "other", "override"):
-        kw["shape_out"] = tuple(out_shape)
+        # a tuple, a list, or a tuple of numpy integers (what `array.shape` arithmetic gives)
+        kw["shape_out"] = [tuple, list, lambda x: tuple(np.int64(v) for v in x)][case["crpix_seed"] % 3](out_shape)
     # ---- expectations
     src_types = [str(x) for x in w.world_axis_physical_types]
     tgt_types = [str(x) for x in t.world_axis_physical_types]
